@@ -59,7 +59,7 @@ mutual
 element-wise (objects: key, value, key, value … in storage order) -/
 def jsonCmpC : Json → Json → Option Ordering
   | .null, .null => some .eq
-  | .str a, .str b => some (compare a b)
+  | .str a, .str b => some (strCmp a b)
   | .num a, .num b => some (Dec.cmp a b)
   | .bool a, .bool b => some (compare a.toNat b.toNat)
   | .arr xs, .arr ys => if xs.length != ys.length then some (compare xs.length ys.length) else jsonCmpList xs ys
@@ -103,11 +103,11 @@ mutual
 /-- total order used by `=`/`<`/ORDER BY/DISTINCT on non-null values of the same type family; `none` = not comparable here -/
 def valCmp : Val → Val → Option Ordering
   | .bool a, .bool b => some (compare a.toNat b.toNat)
-  | .int a, .int b => some (compare a b)
+  | .int a, .int b => some (intCmp a b)
   | .int a, .num b => some (Dec.cmp (Dec.ofInt a) b)
   | .num a, .int b => some (Dec.cmp a (Dec.ofInt b))
   | .num a, .num b => some (Dec.cmp a b)
-  | .text a, .text b => some (compare a b)
+  | .text a, .text b => some (strCmp a b)
   | .jsonb a, .jsonb b => jsonCmp a b
   | .arr xs, .arr ys => valCmpList xs ys
   | .row _ xs, .row _ ys => valCmpList xs ys
@@ -202,10 +202,33 @@ def parseBool? (s : String) : Option Bool :=
   else if ["false", "f", "fa", "fal", "fals", "no", "n", "off", "of", "0"].contains t then some false
   else none
 
-def baseTy (ty : String) : String := if ty.endsWith "[]" then (ty.dropEnd 2).toString else ty
-def isIntTy (ty : String) : Bool := ["int", "int2", "int4", "int8"].contains ty
-def isNumTy (ty : String) : Bool := ["float4", "float8", "numeric"].contains ty
-def isCompositeTy (ty : String) : Bool := ["nodecomposite", "edgecomposite", "pathcomposite"].contains ty
+/-- classification of the type names the translator writes (by literal match, so that it computes in proofs) -/
+inductive TyClass where
+  | unset | int | num | text | bool | jsonb | composite | anyarray | array (elem : String) | other
+deriving Repr, DecidableEq
+
+def tyClass : String → TyClass
+  | "" => .unset | "unknown" => .unset
+  | "int" => .int | "int2" => .int | "int4" => .int | "int8" => .int
+  | "float4" => .num | "float8" => .num | "numeric" => .num
+  | "text" => .text | "varchar" => .text
+  | "bool" => .bool
+  | "jsonb" => .jsonb
+  | "nodecomposite" => .composite | "edgecomposite" => .composite | "pathcomposite" => .composite
+  | "anyarray" => .anyarray
+  | "int[]" => .array "int" | "int2[]" => .array "int2" | "int4[]" => .array "int4" | "int8[]" => .array "int8"
+  | "float4[]" => .array "float4" | "float8[]" => .array "float8" | "numeric[]" => .array "numeric"
+  | "text[]" => .array "text" | "jsonb[]" => .array "jsonb"
+  | "nodecomposite[]" => .array "nodecomposite" | "edgecomposite[]" => .array "edgecomposite"
+  | _ => .other
+
+def baseTy (ty : String) : String :=
+  match tyClass ty with
+  | .array e => e
+  | _ => ty
+def isIntTy (ty : String) : Bool := tyClass ty == .int
+def isNumTy (ty : String) : Bool := tyClass ty == .num
+def isCompositeTy (ty : String) : Bool := tyClass ty == .composite
 
 /-- text of a jsonb scalar as `->>` / `jsonb_array_elements_text` return it -/
 def jsonScalarText : Json → Option String
@@ -214,76 +237,86 @@ def jsonScalarText : Json → Option String
   | .bool b => some (if b then "true" else "false")
   | _ => none
 
+def castInt (ty : String) : Val → EM Val
+  | .int i => .ok (.int i)
+  | .num d => if d.normalize.s == 0 then .ok (.int d.normalize.m) else .error (.unmodelled "fractional-to-integer-rounding")
+  | .text s => match parseInt? s with
+    | some i => .ok (.int i)
+    | none => .error (.runtime ("invalid input syntax for type bigint: " ++ s))
+  | .jsonb j => match j with
+    | .num d => if d.normalize.s == 0 then .ok (.int d.normalize.m) else .error (.unmodelled "fractional-to-integer-rounding")
+    | _ => .error (.runtime "cannot cast jsonb non-number to integer")
+  | .bool _ => .error (.unmodelled "boolean-to-integer-cast")
+  | _ => .error (.typing ("cast to " ++ ty))
+
+def castNum (ty : String) : Val → EM Val
+  | .int i => .ok (.num (Dec.ofInt i))
+  | .num d => .ok (.num d)
+  | .text s => match parseDec? s with
+    | some d => .ok (.num d)
+    | none => if looksNumericOther s then .error (.unmodelled "numeric-input-form") else .error (.runtime ("invalid input syntax for type numeric: " ++ s))
+  | .jsonb j => match j with
+    | .num d => .ok (.num d)
+    | _ => .error (.runtime "cannot cast jsonb non-number to numeric")
+  | _ => .error (.typing ("cast to " ++ ty))
+
+def castText : Val → EM Val
+  | .text s => .ok (.text s)
+  | .int i => .ok (.text (toString i))
+  | .num d => .ok (.text d.toText)
+  | .bool b => .ok (.text (if b then "true" else "false"))
+  | _ => .error (.unmodelled ("cast-to-text"))
+
+def castBool : Val → EM Val
+  | .bool b => .ok (.bool b)
+  | .text s => match parseBool? s with
+    | some b => .ok (.bool b)
+    | none => .error (.runtime ("invalid input syntax for type boolean: " ++ s))
+  | .jsonb j => match j with
+    | .bool b => .ok (.bool b)
+    | _ => .error (.runtime "cannot cast jsonb non-boolean to boolean")
+  | .int _ => .error (.unmodelled "integer-to-boolean-cast")
+  | _ => .error (.typing "cast to bool")
+
+def castJsonb : Val → EM Val
+  | .jsonb j => .ok (.jsonb j)
+  | .text s =>
+    -- input syntax of json: only the literals the translator writes are parsed here
+    if s == "null" then .ok (.jsonb .null) else
+    if s == "true" then .ok (.jsonb (.bool true)) else
+    if s == "false" then .ok (.jsonb (.bool false)) else
+    match parseDec? s with
+    | some d => .ok (.jsonb (.num d))
+    | none => .error (.unmodelled "text-to-jsonb-parse")
+  | _ => .error (.typing "cast to jsonb")
+
+def castComposite (ty : String) : Val → EM Val
+  | .row _ vs => .ok (.row ty vs)
+  | _ => .error (.typing ("cast to " ++ ty))
+
 mutual
 /-- `e::ty` -/
-def castVal (ty : String) : Val → EM Val
+def castVal (ty : String) (v : Val) : EM Val :=
+  match v with
   | .null => .ok .null
+  | .arr vs =>
+    match tyClass ty with
+    | .unset => .ok (.arr vs)
+    | .anyarray => .ok (.arr vs)
+    | .array elem => do let vs' ← castList elem vs; pure (.arr vs')
+    | _ => .error (.typing ("cast of array to " ++ ty))
   | v =>
-    if ty == "" || ty == "unknown" then .ok v else
-    if ty.endsWith "[]" then
-      match v with
-      | .arr vs => do let vs' ← castList (baseTy ty) vs; pure (.arr vs')
-      | .text _ => .error (.unmodelled "text-to-array-cast")
-      | _ => .error (.typing ("cast to " ++ ty))
-    else if ty == "anyarray" then
-      match v with
-      | .arr _ => .ok v
-      | _ => .error (.typing "cast to anyarray")
-    else if isIntTy ty then
-      match v with
-      | .int i => .ok (.int i)
-      | .num d => if d.normalize.s == 0 then .ok (.int d.normalize.m) else .error (.unmodelled "fractional-to-integer-rounding")
-      | .text s => match parseInt? s with
-        | some i => .ok (.int i)
-        | none => .error (.runtime ("invalid input syntax for type bigint: " ++ s))
-      | .jsonb (.num d) => if d.normalize.s == 0 then .ok (.int d.normalize.m) else .error (.unmodelled "fractional-to-integer-rounding")
-      | .jsonb _ => .error (.runtime "cannot cast jsonb non-number to integer")
-      | .bool _ => .error (.unmodelled "boolean-to-integer-cast")
-      | _ => .error (.typing ("cast to " ++ ty))
-    else if isNumTy ty then
-      match v with
-      | .int i => .ok (.num (Dec.ofInt i))
-      | .num d => .ok (.num d)
-      | .text s => match parseDec? s with
-        | some d => .ok (.num d)
-        | none => if looksNumericOther s then .error (.unmodelled "numeric-input-form") else .error (.runtime ("invalid input syntax for type numeric: " ++ s))
-      | .jsonb (.num d) => .ok (.num d)
-      | .jsonb _ => .error (.runtime "cannot cast jsonb non-number to numeric")
-      | _ => .error (.typing ("cast to " ++ ty))
-    else if ty == "text" || ty == "varchar" then
-      match v with
-      | .text s => .ok (.text s)
-      | .int i => .ok (.text (toString i))
-      | .num d => .ok (.text d.toText)
-      | .bool b => .ok (.text (if b then "true" else "false"))
-      | _ => .error (.unmodelled ("cast-to-text"))
-    else if ty == "bool" then
-      match v with
-      | .bool b => .ok (.bool b)
-      | .text s => match parseBool? s with
-        | some b => .ok (.bool b)
-        | none => .error (.runtime ("invalid input syntax for type boolean: " ++ s))
-      | .jsonb (.bool b) => .ok (.bool b)
-      | .jsonb _ => .error (.runtime "cannot cast jsonb non-boolean to boolean")
-      | .int _ => .error (.unmodelled "integer-to-boolean-cast")
-      | _ => .error (.typing "cast to bool")
-    else if ty == "jsonb" then
-      match v with
-      | .jsonb j => .ok (.jsonb j)
-      | .text s =>
-        -- input syntax of json: only the literals the translator writes are parsed here
-        if s == "null" then .ok (.jsonb .null) else
-        if s == "true" then .ok (.jsonb (.bool true)) else
-        if s == "false" then .ok (.jsonb (.bool false)) else
-        match parseDec? s with
-        | some d => .ok (.jsonb (.num d))
-        | none => .error (.unmodelled "text-to-jsonb-parse")
-      | _ => .error (.typing "cast to jsonb")
-    else if isCompositeTy ty then
-      match v with
-      | .row _ vs => .ok (.row ty vs)
-      | _ => .error (.typing ("cast to " ++ ty))
-    else .error (.unmodelled ("cast-to-" ++ ty))
+    match tyClass ty with
+    | .unset => .ok v
+    | .array _ => (match v with | .text _ => .error (.unmodelled "text-to-array-cast") | _ => .error (.typing ("cast to " ++ ty)))
+    | .anyarray => .error (.typing "cast to anyarray")
+    | .int => castInt ty v
+    | .num => castNum ty v
+    | .text => castText v
+    | .bool => castBool v
+    | .jsonb => castJsonb v
+    | .composite => castComposite ty v
+    | .other => .error (.unmodelled ("cast-to-" ++ ty))
 def castList (ty : String) : List Val → EM (List Val)
   | [] => .ok []
   | v :: vs => do let a ← castVal ty v; let r ← castList ty vs; pure (a :: r)
@@ -344,70 +377,93 @@ def jsonGetText (j : Json) (k : Val) : EM Val := do
 /-- element membership for `@>` / `&&` on arrays: NULL elements never match -/
 def arrHas (vs : List Val) (x : Val) : Bool := vs.any (fun v => match v, x with | .null, _ => false | _, .null => false | _, _ => valCmp v x == some .eq)
 
+def minusOp (a b : Val) : EM Val :=
+  match a, b with
+  | .jsonb (.obj kvs), .arr ks =>
+    .ok (.jsonb (.obj (kvs.filter (fun p => !(ks.any (fun k => match k with | .text t => t == p.1 | _ => false))))))
+  | _, _ => arith "-" a b
+
+def concatOp (a b : Val) : EM Val :=
+  match a, b with
+  | .null, .arr ys => .ok (.arr ys)
+  | .arr xs, .null => .ok (.arr xs)
+  | .null, _ => .ok .null
+  | _, .null => .ok .null
+  | .arr xs, .arr ys => .ok (.arr (xs ++ ys))
+  | .arr xs, y => .ok (.arr (xs ++ [y]))
+  | x, .arr ys => .ok (.arr (x :: ys))
+  | .text x, .text y => .ok (.text (x ++ y))
+  | .jsonb (.obj x), .jsonb (.obj y) => .ok (.jsonb (.obj (x.filter (fun p => (Json.lookup p.1 y).isNone) ++ y)))
+  | _, _ => .error (.unmodelled "||-operands")
+
+/-- `a -> b` -/
+def arrowOp (a b : Val) : EM Val :=
+  match a with
+  | .null => .ok .null
+  | .jsonb j => (match b with | .null => .ok .null | _ => jsonGet j b)
+  | _ => .error (.typing "-> on non-jsonb")
+
+/-- `a ->> b` -/
+def arrowTextOp (a b : Val) : EM Val :=
+  match a with
+  | .null => .ok .null
+  | .jsonb j => (match b with | .null => .ok .null | _ => jsonGetText j b)
+  | _ => .error (.typing "->> on non-jsonb")
+
+/-- `a ? b` -/
+def hasKeyOp (a b : Val) : EM Val :=
+  match a, b with
+  | .null, _ => .ok .null
+  | _, .null => .ok .null
+  | .jsonb (.obj kvs), .text k => .ok (.bool (Json.lookup k kvs).isSome)
+  | .jsonb (.arr xs), .text k => .ok (.bool (xs.any (fun x => match x with | .str s => s == k | _ => false)))
+  | .jsonb _, .text _ => .ok (.bool false)
+  | _, _ => .error (.typing "? operands")
+
+/-- `a @> b` on arrays -/
+def containsOp (a b : Val) : EM Val :=
+  match a, b with
+  | .null, _ => .ok .null
+  | _, .null => .ok .null
+  | .arr xs, .arr ys => .ok (.bool (ys.all (arrHas xs)))
+  | _, _ => .error (.unmodelled "@>-operands")
+
+def overlapOp (a b : Val) : EM Val :=
+  match a, b with
+  | .null, _ => .ok .null
+  | _, .null => .ok .null
+  | .arr xs, .arr ys => .ok (.bool (ys.any (arrHas xs)))
+  | _, _ => .error (.typing "&& operands")
+
+def likeOp (ci : Bool) (a b : Val) : EM Val :=
+  match a, b with
+  | .null, _ => .ok .null
+  | _, .null => .ok .null
+  | .text s, .text p => .ok (.bool (if ci then likeMatch p.toLower.toList s.toLower.toList else likeMatch p.toList s.toList))
+  | _, _ => .error (.typing "like operands")
+
+def isOp (neg : Bool) (a b : Val) : EM Val :=
+  match b with
+  | .null => .ok (.bool ((match a with | .null => true | _ => false) != neg))
+  | .bool t => .ok (.bool ((match a with | .bool x => x == t | _ => false) != neg))
+  | _ => .error (.unmodelled "is-operand")
+
 /-- binary operators other than AND / OR (evaluated by the caller because of error absorption) -/
 def binOp (op : String) (a b : Val) : EM Val :=
   match op with
   | "=" | "<>" | "!=" | "<" | "<=" | ">" | ">=" => vCompare op a b
-  | "+" | "-" | "*" | "/" | "%" =>
-    match op, a, b with
-    | "-", .jsonb (.obj kvs), .arr ks =>
-      .ok (.jsonb (.obj (kvs.filter (fun p => !(ks.any (fun k => match k with | .text t => t == p.1 | _ => false))))))
-    | _, _, _ => arith op a b
-  | "||" =>
-    match a, b with
-    | .null, .arr ys => .ok (.arr ys)
-    | .arr xs, .null => .ok (.arr xs)
-    | .null, _ => .ok .null
-    | _, .null => .ok .null
-    | .arr xs, .arr ys => .ok (.arr (xs ++ ys))
-    | .arr xs, y => .ok (.arr (xs ++ [y]))
-    | x, .arr ys => .ok (.arr (x :: ys))
-    | .text x, .text y => .ok (.text (x ++ y))
-    | .jsonb (.obj x), .jsonb (.obj y) => .ok (.jsonb (.obj (x.filter (fun p => (Json.lookup p.1 y).isNone) ++ y)))
-    | _, _ => .error (.unmodelled "||-operands")
-  | "->" => match a with
-    | .null => .ok .null
-    | .jsonb j => (match b with | .null => .ok .null | _ => jsonGet j b)
-    | _ => .error (.typing "-> on non-jsonb")
-  | "->>" => match a with
-    | .null => .ok .null
-    | .jsonb j => (match b with | .null => .ok .null | _ => jsonGetText j b)
-    | _ => .error (.typing "->> on non-jsonb")
-  | "?" => match a, b with
-    | .null, _ => .ok .null
-    | _, .null => .ok .null
-    | .jsonb (.obj kvs), .text k => .ok (.bool (Json.lookup k kvs).isSome)
-    | .jsonb (.arr xs), .text k => .ok (.bool (xs.any (fun x => match x with | .str s => s == k | _ => false)))
-    | .jsonb _, .text _ => .ok (.bool false)
-    | _, _ => .error (.typing "? operands")
-  | "operator (pg_catalog.@>)" | "@>" => match a, b with
-    | .null, _ => .ok .null
-    | _, .null => .ok .null
-    | .arr xs, .arr ys => .ok (.bool (ys.all (arrHas xs)))
-    | _, _ => .error (.unmodelled "@>-operands")
-  | "operator (pg_catalog.&&)" | "&&" => match a, b with
-    | .null, _ => .ok .null
-    | _, .null => .ok .null
-    | .arr xs, .arr ys => .ok (.bool (ys.any (arrHas xs)))
-    | _, _ => .error (.typing "&& operands")
-  | "like" => match a, b with
-    | .null, _ => .ok .null
-    | _, .null => .ok .null
-    | .text s, .text p => .ok (.bool (likeMatch p.toList s.toList))
-    | _, _ => .error (.typing "like operands")
-  | "ilike" => match a, b with
-    | .null, _ => .ok .null
-    | _, .null => .ok .null
-    | .text s, .text p => .ok (.bool (likeMatch p.toLower.toList s.toLower.toList))
-    | _, _ => .error (.typing "ilike operands")
-  | "is" => match b with
-    | .null => .ok (.bool (match a with | .null => true | _ => false))
-    | .bool t => .ok (.bool (match a with | .bool x => x == t | _ => false))
-    | _ => .error (.unmodelled "is-operand")
-  | "is not" => match b with
-    | .null => .ok (.bool (match a with | .null => false | _ => true))
-    | .bool t => .ok (.bool (match a with | .bool x => x != t | _ => true))
-    | _ => .error (.unmodelled "is-not-operand")
+  | "+" | "*" | "/" | "%" => arith op a b
+  | "-" => minusOp a b
+  | "||" => concatOp a b
+  | "->" => arrowOp a b
+  | "->>" => arrowTextOp a b
+  | "?" => hasKeyOp a b
+  | "operator (pg_catalog.@>)" | "@>" => containsOp a b
+  | "operator (pg_catalog.&&)" | "&&" => overlapOp a b
+  | "like" => likeOp false a b
+  | "ilike" => likeOp true a b
+  | "is" => isOp false a b
+  | "is not" => isOp true a b
   | _ => .error (.unmodelled ("operator " ++ op))
 
 /-- `x op ANY (array)` -/
